@@ -379,7 +379,7 @@ def run_siblings(ctx, groups, walks):
         raise MachineryError("FamiliesSib.Siblings did not emit the behaviours %r" % missing)
     tags = sorted(by)
     random.Random(ctx.seed).shuffle(tags)
-    extra = 2 if ctx.tier == "quick" else 8
+    extra = 2 if ctx.tier == "quick" else 4
     k, done, used, fams = 0, 0, set(), {}
     for g in groups:
         if not g.ok():
@@ -544,7 +544,7 @@ def run_buffers(ctx, groups, walks):
     entries = sorted({w["entry"] for w in walks})
     tags = sorted(by)
     random.Random(ctx.seed + 1).shuffle(tags)
-    extra = 2 if ctx.tier == "quick" else 8
+    extra = 2 if ctx.tier == "quick" else 4
     k, done, used, fams, per_entry = 0, 0, set(), {}, {}
     for g in groups:
         if not g.ok():
@@ -675,7 +675,7 @@ def run_live(ctx, groups, walks, tags):
     random.Random(ctx.seed + 2).shuffle(order)
     canon = [t for t in ("E:logpdf.edit:slice.E:logpdf", "E:gradient.edit:items.E:logpdf", "E:logpdf.edit:iadd.E:gradient",
                          "E:logpdf.edit:argbuf.E:logpdf") if t in by]
-    extra = 1 if ctx.tier == "quick" else 6
+    extra = 1 if ctx.tier == "quick" else 3
     k, done, stats, fams = 0, 0, {}, {}
     for g in groups:
         if not g.ok() or g.fam in MRF:        # (the Markov random fields: property C20 replays this part on its own configurations)
